@@ -506,7 +506,7 @@ def health(ctx, stats):
     return [
         f"class {c} has only {stats.classes.get(c, 0)} cases"
         for c in need
-        if stats.classes.get(c, 0) < 20
+        if stats.classes.get(c, 0) < (5 if ctx.quick else 100)
     ]
 
 
